@@ -15,6 +15,8 @@
 (*   "o" object with attributes  v = sequence of <<name, value>>           *)
 (*   "x" raised exception   v = class name (TLA+ string)                   *)
 (*   "c" opaque class label v = TLA+ string (value classes of C23)         *)
+(*   "f" float              v = its value in thousandths (exact decimals   *)
+(*                              only; other floats are class labels)       *)
 (* Text is never a TLA+ string: TLC strings are atoms.  Code points keep   *)
 (* Python's str ordering (lexicographic by code point) and make the ASCII  *)
 (* case map a two-line definition.                                         *)
@@ -41,7 +43,7 @@ MaxI(a, b) == IF a > b THEN a ELSE b
 RECURSIVE VEq(_, _)
 VEq(a, b) ==
     /\ a.t = b.t
-    /\ CASE a.t \in {"i", "b", "x", "c"} -> a.v = b.v
+    /\ CASE a.t \in {"i", "b", "x", "c", "f"} -> a.v = b.v
          [] a.t \in {"s", "m"} -> a.v = b.v
          [] a.t = "l" -> /\ Len(a.v) = Len(b.v)
                          /\ \A k \in 1..Len(a.v) : VEq(a.v[k], b.v[k])
